@@ -129,7 +129,7 @@ PROBES = [
     "apply_after_apply_fail_same_base", "apply_fail_after_joins_recorded",
     "cache_hit", "cache_miss", "cache_eviction", "same_shape_different_literals",
     "style_sa_select", "style_sa_legacy", "style_sa_core", "style_dj_qs",
-    "style_sa_select_aliased", "join_form_joinedload", "join_form_core_join",
+    "style_sa_select_aliased", "style_sa_core_cols", "join_form_joinedload", "join_form_core_join",
     "join_form_aliased_rel", "apply_navigates_other_rel_to_aliased_target", "op_distinct",
     "op_only", "style_dj_manager", "style_dj_custom_manager", "style_dj_related_manager", "join_form_rel", "join_form_outer_rel", "join_form_target_on",
     "join_form_target", "join_form_select_related", "host_func_used", "gc_between_ops",
@@ -356,7 +356,7 @@ def execute(plan, pristine, deep=False):
                 # --- joins: not twice, every needed one added
                 sql = b.sql_text(q.snap0)
                 base_sql = b.sql_text(base.snap0)
-                if not app.is_dj(style) and style != "sa_core":
+                if not app.is_dj(style) and style not in app.CORE_STYLES:
                     for table in sorted({T.TABLE[T.TO_ONE[o][r][1]] for o, r in need}
                                         | {"author", "post", "comment"}):
                         before = app.count_joins(base_sql, table)
@@ -557,7 +557,7 @@ def gen_plan(seed, run, finding_shapes=True):
     gs = []
     n_ops = rng.randint(5, 14)
     # a history works on one or two backends
-    styles = rng.sample(["sa_select", "sa_select_aliased", "sa_legacy", "sa_core", "dj_qs",
+    styles = rng.sample(["sa_select", "sa_select_aliased", "sa_legacy", "sa_core", "sa_core_cols", "dj_qs",
                          "dj_manager", "dj_custom_manager", "dj_related_manager"],
                         rng.choice([1, 1, 2]))
     ctr = [0]
@@ -593,7 +593,7 @@ def gen_plan(seed, run, finding_shapes=True):
         # prefer recent queries but keep older ones in play
         g = gs[-1] if rng.random() < 0.5 else rng.choice(gs)
         dj = g.style.startswith("dj")
-        core = g.style == "sa_core"
+        core = g.style in ("sa_core", "sa_core_cols")
         if r < 0.18:
             i = nid()
             ops.append({"i": i, "op": "where", "base": g.i, "cond": _gen_cond(rng, g.root)})
@@ -693,7 +693,8 @@ def gen_plan(seed, run, finding_shapes=True):
                 # model: what a per-(model, text) cache inside the library needs
                 same = [x for x in gs if x.root == last_template[0] and x.i != last_template[2].i
                         and x.style.startswith("dj") == last_template[2].style.startswith("dj")
-                        and (x.style == "sa_core") == (last_template[2].style == "sa_core")]
+                        and (x.style in ("sa_core", "sa_core_cols")) ==
+                        (last_template[2].style in ("sa_core", "sa_core_cols"))]
                 cand = last_template[1]
                 same = [x for x in same
                         if not any(pth[0] in x.aliased for pth in T.nav_paths(cand))]
@@ -714,7 +715,7 @@ def gen_plan(seed, run, finding_shapes=True):
                 # same base query, so that the compiled-statement cache can hit
                 g = last_template[2]
                 dj = g.style.startswith("dj")
-                core = g.style == "sa_core"
+                core = g.style in ("sa_core", "sa_core_cols")
             if last_template and last_template[0] == g.root and rng.random() < 0.6 and \
                     (not core or not T.needed_rels(last_template[1], g.root)):
                 t = T.vary_literals(rng, last_template[1])
@@ -1143,7 +1144,8 @@ SYS_DATA = {
                 {"id": 3, "body": "nice", "post_id": 1, "writer_id": 1, "reviewer_id": None},
                 {"id": 4, "body": "meh", "post_id": 2, "writer_id": 3, "reviewer_id": 1}],
 }
-SYS_STYLES = ["sa_select", "sa_select_aliased", "sa_legacy", "sa_core", "dj_qs", "dj_manager",
+SYS_STYLES = ["sa_select", "sa_select_aliased", "sa_legacy", "sa_core", "sa_core_cols", "dj_qs",
+              "dj_manager",
               "dj_custom_manager", "dj_related_manager"]
 SYS_SHAPES = ["plain", "where", "order", "join_rel", "join_outer", "join_target_on",
               "join_joinedload", "join_other", "join_aliased_other", "join_two_used_first",
@@ -1191,7 +1193,7 @@ def _sys_template(kind, root, variant):
 
 def _sys_history(style, root, shape, fkind):
     dj = style.startswith("dj")
-    core = style == "sa_core"
+    core = style in ("sa_core", "sa_core_cols")
     t = _sys_template(fkind, root, 0)
     t2 = _sys_template(fkind, root, 1)
     if t is None:
